@@ -1,4 +1,5 @@
 import Ivg.Lemmas.GenQ
+import Ivg.Lemmas.Gen32x
 import Ivg.Lemmas.PathParse3
 import Ivg.Lemmas.PathShape
 import Ivg.Lemmas.PathParseErr
@@ -20,7 +21,8 @@ first path."
 Models: `Ivg/Model/Generator.lean` (`concat`, `mulAff3`, `normalizeArgs`, `emitVerb`; Go:
 `/repo/generate/generate.go`) and `Ivg/Model/MdIcons.lean` (`normalizeArgs`, `parsePath`; Go:
 `/repo/mdicons/parsepath.go`, `parsepathdata.go`).  Arithmetic facts are proved for the models
-instantiated at EXACT arithmetic (`ℚ`); structural facts for every number type.
+instantiated at EXACT arithmetic (`ℚ`) and, with explicit error bounds, at float32 (`Ivg/Lemmas/Xf32.lean`);
+structural facts for every number type.
 The parsing clauses of C20 (tokenising the path string, implicit verb repetition) are the last two sections:
 the specification (`Ivg/Spec/PathData.lean`: abstract syntax `Cmd`, numerals `Tok`, the printers `render` /
 `renderC` / `renderMd`, the decidable dialects `WellFormed` / `WellFormedC` / `WellFormedMd`, the spelled
@@ -127,6 +129,179 @@ theorem md_normalize_hv (size offX offY outSize a : ℚ) :
 theorem md_map_eq (size outSize off a : ℚ) :
     MdG.mdRel size outSize a = a * (outSize / size) ∧
     MdG.mdAbs size outSize off a = a * (outSize / size) - outSize / 2 - off := ⟨rfl, rfl⟩
+
+/-! ## transforms at float32 (the generator and the converter as the Go code runs them)
+
+The models instantiated at the bit-exact soft float `F32`; `val` is the rational value of a float32, `u = 2^-24`,
+`Mix32.tiny = 2^-150` (the absolute error of a product or quotient that falls below the normal range — no
+hypothesis excludes underflow).  Range hypotheses are simple sufficient conditions excluding overflow:
+`Xf32.STOk T` (a scale-and-translate matrix — off-diagonal entries of VALUE zero — with finite entries of
+magnitude at most `2^40`), `Xf32.OpOK x` (finite operand, `|x| ≤ 2^40`), `Xf32.AffOK`, `Xf32.MdOK`, `Xf32.MdOp`. -/
+section f32
+open Num FloatMono32 FloatErr Xf32
+
+/-- Clause "absolute operands get the full transform, relative operands the scale only, arc radii the scale, arc
+    flags unchanged [rotation passed on]" at float32.  `T = Concat(ts…)` computed in float32 (for ONE transform
+    that transform itself, `concat_single_f32`; for scale-then-translate exactly `[sx 0 tx; 0 sy ty]`,
+    `concat_scale_translate_f32`).  Every operand pair of the 2-, 4-, 6-operand verbs and the arc's end point is
+    `f x y`, where for operands in range (`Xf32.PairNear`):
+    absolute verb — each coordinate is finite and within `3u·|s·x| + u·|t| + 2·2^-150` of `s·x + t`
+    (`Xf32.AbsNear`: two roundings, the cross terms `y·0` are exact);
+    relative verb — within `u·|s·x| + 2^-150` of `s·x` (`Xf32.RelNear`: one rounding);
+    arc radii — `RelNear`; rotation and flags are passed on untouched. -/
+theorem normalize_abs_f32 (ts : List (Aff3 F32)) (hne : ts ≠ []) (hT : STOk (concat ts)) (verb : Char) :
+    ∃ f : F32 → F32 → F32 × F32,
+    (∀ x y, OpOK x → OpOK y → PairNear (concat ts) (isLower verb) x y (f x y).1 (f x y).2) ∧
+    (∀ a0 a1, normalizeArgs [a0, a1] 2 verb ts = [(f a0 a1).1, (f a0 a1).2]) ∧
+    (∀ a0 a1 a2 a3, normalizeArgs [a0, a1, a2, a3] 4 verb ts =
+      [(f a0 a1).1, (f a0 a1).2, (f a2 a3).1, (f a2 a3).2]) ∧
+    (∀ a0 a1 a2 a3 a4 a5, normalizeArgs [a0, a1, a2, a3, a4, a5] 6 verb ts =
+      [(f a0 a1).1, (f a0 a1).2, (f a2 a3).1, (f a2 a3).2, (f a4 a5).1, (f a4 a5).2]) ∧
+    (∀ rx ry rot la sw x y, ∃ r1 r2,
+      normalizeArgs [rx, ry, rot, la, sw, x, y] 7 verb ts = [r1, r2, rot, la, sw, (f x y).1, (f x y).2] ∧
+      (OpOK rx → OpOK ry → RelNear (concat ts).a0 rx r1 ∧ RelNear (concat ts).a4 ry r2)) :=
+  Xf32.normalize_f32 ts hne hT verb
+example : [scale2 (F32.ofInt 2) (F32.ofInt 2), translate (F32.ofInt (-32)) (F32.ofInt (-32))] ≠ [] ∧
+    STOk (concat [scale2 (F32.ofInt 2) (F32.ofInt 2), translate (F32.ofInt (-32)) (F32.ofInt (-32))]) ∧
+    OpOK (F32.ofInt 5) := ⟨by simp, Gen32x.stOK_example, Gen32x.opOK_example⟩
+
+/-- what the three predicates say -/
+theorem near_eq (T : Aff3 F32) (s t x y r r1 r2 : F32) :
+    (AbsNear s t x r ↔
+      Fn r ∧ |val r - (val s * val x + val t)| ≤ 3 * u * |val s * val x| + u * |val t| + 2 * Mix32.tiny) ∧
+    (RelNear s x r ↔ Fn r ∧ |val r - val s * val x| ≤ u * |val s * val x| + Mix32.tiny) ∧
+    (PairNear T false x y r1 r2 ↔ AbsNear T.a0 T.a2 x r1 ∧ AbsNear T.a4 T.a5 y r2) ∧
+    (PairNear T true x y r1 r2 ↔ RelNear T.a0 x r1 ∧ RelNear T.a4 y r2) :=
+  ⟨Iff.rfl, Iff.rfl, by simp [PairNear], by simp [PairNear]⟩
+
+/-- … when the magnitudes are not below the normal range (`2^-126`), in the form `C·u·(|s·x| + |t|)`:
+    absolute `5u·(|s·x| + |t|)`, relative `2u·|s·x|` -/
+theorem near_mag {s t x r : F32} :
+    (AbsNear s t x r → minN ≤ |val s * val x| + |val t| →
+      |val r - (val s * val x + val t)| ≤ 5 * u * (|val s * val x| + |val t|)) ∧
+    (RelNear s x r → minN ≤ |val s * val x| → |val r - val s * val x| ≤ 2 * u * |val s * val x|) :=
+  ⟨fun h hn => h.mag hn, fun h hn => h.mag hn⟩
+
+/-- … single-operand verbs: `H ↦ sx·x + tx`, `h ↦ sx·x`, `V ↦ sy·y + ty`, `v ↦ sy·y`, same bounds -/
+theorem normalize_hv_f32 (ts : List (Aff3 F32)) (hne : ts ≠ []) (hT : STOk (concat ts)) (a : F32) (ha : OpOK a) :
+    (∃ r, normalizeArgs [a] 1 'H' ts = [r] ∧ AbsNear (concat ts).a0 (concat ts).a2 a r) ∧
+    (∃ r, normalizeArgs [a] 1 'h' ts = [r] ∧ RelNear (concat ts).a0 a r) ∧
+    (∃ r, normalizeArgs [a] 1 'V' ts = [r] ∧ AbsNear (concat ts).a4 (concat ts).a5 a r) ∧
+    (∃ r, normalizeArgs [a] 1 'v' ts = [r] ∧ RelNear (concat ts).a4 a r) :=
+  Xf32.normalize_hv_f32 ts hne hT a ha
+
+/-- Clause "arc flags unchanged and rotation converted from degrees to turns" at float32: the arc call carries
+    `fl(rot / 360)` — one rounding, within `u·|rot/360| + 2^-150` of the exact quotient — and each flag is `true`
+    exactly when its operand's value is non-zero. -/
+theorem emit_arc_f32 (adj : UInt8) (rx ry rot la sw x y : F32) :
+    emitVerb 'A' adj [rx, ry, rot, la, sw, x, y] =
+      .ok [.arc false rx ry (rot / F32.ofInt 360) (!F32.feq la (F32.ofInt 0)) (!F32.feq sw (F32.ofInt 0)) x y] ∧
+    emitVerb 'a' adj [rx, ry, rot, la, sw, x, y] =
+      .ok [.arc true rx ry (rot / F32.ofInt 360) (!F32.feq la (F32.ofInt 0)) (!F32.feq sw (F32.ofInt 0)) x y] ∧
+    (Fn rot → Fn (rot / F32.ofInt 360) ∧
+      |val (rot / F32.ofInt 360) - val rot / 360| ≤ u * |val rot / 360| + Mix32.tiny) ∧
+    (Fn la → ((!F32.feq la (F32.ofInt 0)) = true ↔ val la ≠ 0)) ∧
+    (Fn sw → ((!F32.feq sw (F32.ofInt 0)) = true ↔ val sw ≠ 0)) :=
+  Xf32.emit_arc_f32 adj rx ry rot la sw x y
+
+/-- Clause "concatenating transforms is matrix composition" at float32 — one transform: itself (every number
+    type) -/
+theorem concat_single_f32 {α : Type} [Arith α] (a : Aff3 α) : concat [a] = a := rfl
+
+/-- … scale then translate: in VALUE exactly the scale-and-translate matrix (every product is with 0 or 1), so
+    `normalize_abs_f32` applies to the generator's usual transform list with no concatenation error -/
+theorem concat_scale_translate_f32 {sx sy tx ty : F32} (fsx : Fn sx) (fsy : Fn sy) (ftx : Fn tx) (fty : Fn ty)
+    (bsx : |val sx| ≤ 1099511627776) (bsy : |val sy| ≤ 1099511627776)
+    (btx : |val tx| ≤ 1099511627776) (bty : |val ty| ≤ 1099511627776) :
+    STOk (concat [scale2 sx sy, translate tx ty]) ∧
+    valA (concat [scale2 sx sy, translate tx ty]) = ⟨val sx, 0, val tx, 0, val sy, val ty⟩ :=
+  Xf32.concat_scale_translate_f32 fsx fsy ftx fty bsx bsy btx bty
+example : Fn (F32.ofInt 2) ∧ |val (F32.ofInt 2)| ≤ 1099511627776 :=
+  ⟨(Gen32x.ofInt_small 2 (by decide)).1, le_trans (Gen32x.ofInt_small 2 (by decide)).2.2 (by norm_num)⟩
+
+/-- … two general transforms: every entry of `Concat(a, b)` is finite and within `3u·(|p| + |q|) + 3·2^-150`
+    (linear part; `p + q` the exact entry) or `4u·(|p| + |q|) + u·|t| + 3·2^-150` (translation part `p + q + t`) of
+    the entry of the exact matrix product `GenQ.comp (valA a) (valA b) = concat [valA a, valA b]`
+    (`concat_is_composition` at exact arithmetic).  Rounding is relative to the sum of the magnitudes of the
+    products: entries that cancel lose relative accuracy, and longer lists accumulate (the float product is not
+    associative). -/
+theorem concat_pair_f32 {a b : Aff3 F32} (ha : AffOK a) (hb : AffOK b) :
+    let c := concat [a, b]
+    let A := valA a
+    let B := valA b
+    let P := GenQ.comp A B
+    (Fn c.a0 ∧ Fn c.a1 ∧ Fn c.a2 ∧ Fn c.a3 ∧ Fn c.a4 ∧ Fn c.a5) ∧
+    |val c.a0 - P.a0| ≤ 3 * u * (|A.a0 * B.a0| + |A.a3 * B.a1|) + 3 * Mix32.tiny ∧
+    |val c.a1 - P.a1| ≤ 3 * u * (|A.a1 * B.a0| + |A.a4 * B.a1|) + 3 * Mix32.tiny ∧
+    |val c.a2 - P.a2| ≤ 4 * u * (|A.a2 * B.a0| + |A.a5 * B.a1|) + u * |B.a2| + 3 * Mix32.tiny ∧
+    |val c.a3 - P.a3| ≤ 3 * u * (|A.a0 * B.a3| + |A.a3 * B.a4|) + 3 * Mix32.tiny ∧
+    |val c.a4 - P.a4| ≤ 3 * u * (|A.a1 * B.a3| + |A.a4 * B.a4|) + 3 * Mix32.tiny ∧
+    |val c.a5 - P.a5| ≤ 4 * u * (|A.a2 * B.a3| + |A.a5 * B.a4|) + u * |B.a5| + 3 * Mix32.tiny :=
+  Xf32.concat_pair_f32 ha hb
+example : AffOK (scale2 (F32.ofInt 2) (F32.ofInt 3)) ∧ AffOK (translate (F32.ofInt 5) (F32.ofInt 7)) :=
+  Gen32x.affOK_example
+theorem concat_pair_exact (a b : Aff3 F32) : concat [valA a, valA b] = GenQ.comp (valA a) (valA b) :=
+  Xf32.concat_pair_exact a b
+
+/-- The converter's coordinate map at float32.  Structure (every number type): the operands of every verb go
+    through `mdAbsF` (absolute: `a·(outSize/size) − outSize/2 − off`, as computed, x operands with the x offset, y
+    operands with the y offset) or `mdRelF` (relative: `a·(outSize/size)`) … -/
+theorem md_normalize_struct {α : Type} [Arith α] (size offX offY outSize : α) (op : Char) :
+    let X := mdAbsF size outSize offX
+    let Y := mdAbsF size outSize offY
+    let R := mdRelF size outSize
+    (∀ x y, Md.normalizeArgs [x, y] 2 op size offX offY outSize false = [X x, Y y]) ∧
+    (∀ x y, Md.normalizeArgs [x, y] 2 op size offX offY outSize true = [R x, R y]) ∧
+    (∀ x1 y1 x y, Md.normalizeArgs [x1, y1, x, y] 4 op size offX offY outSize false = [X x1, Y y1, X x, Y y]) ∧
+    (∀ x1 y1 x y, Md.normalizeArgs [x1, y1, x, y] 4 op size offX offY outSize true = [R x1, R y1, R x, R y]) ∧
+    (∀ x1 y1 x2 y2 x y, Md.normalizeArgs [x1, y1, x2, y2, x, y] 6 op size offX offY outSize false =
+      [X x1, Y y1, X x2, Y y2, X x, Y y]) ∧
+    (∀ x1 y1 x2 y2 x y, Md.normalizeArgs [x1, y1, x2, y2, x, y] 6 op size offX offY outSize true =
+      [R x1, R y1, R x2, R y2, R x, R y]) ∧
+    (∀ a, Md.normalizeArgs [a] 1 'H' size offX offY outSize false = [X a]) ∧
+    (∀ a, Md.normalizeArgs [a] 1 'V' size offX offY outSize false = [Y a]) ∧
+    (∀ a, Md.normalizeArgs [a] 1 'h' size offX offY outSize true = [R a]) ∧
+    (∀ a, Md.normalizeArgs [a] 1 'v' size offX offY outSize true = [R a]) :=
+  Xf32.md_normalize_struct size offX offY outSize op
+
+/-- … and the two maps at float32 (`MdOK`: `2^-20 ≤ |size| ≤ 2^20`, `|outSize| ≤ 2^20`; operands and offsets
+    finite, at most `2^20`): a relative operand is within `(2u + u²)·|x·outSize/size| + 2^21·2^-150` of
+    `x·outSize/size` (two roundings), an absolute one within
+    `5u·(|x·outSize/size| + |outSize/2| + |off|) + 2^22·2^-150` of `x·outSize/size − outSize/2 − off` (five
+    roundings, relative to the SUM of the three magnitudes). -/
+theorem md_normalize_f32 {size outSize : F32} (h : MdOK size outSize) {x off : F32} (hx : MdOp x) (ho : MdOp off) :
+    (Fn (mdRelF size outSize x) ∧
+      |val (mdRelF size outSize x) - val x * (val outSize / val size)| ≤
+        (2 * u + u * u) * |val x * (val outSize / val size)| + 2097152 * Mix32.tiny) ∧
+    (Fn (mdAbsF size outSize off x) ∧
+      |val (mdAbsF size outSize off x) - (val x * (val outSize / val size) - val outSize / 2 - val off)| ≤
+        5 * u * (|val x * (val outSize / val size)| + |val outSize / 2| + |val off|) + 4194304 * Mix32.tiny) :=
+  ⟨Xf32.md_rel_f32 h hx, Xf32.md_abs_f32 h hx ho⟩
+example : MdOK (F32.ofInt 24) (F32.ofInt 48) ∧ MdOp (F32.ofInt 25) ∧ MdOp (F32.ofInt 0) := Gen32x.mdOK_example
+
+/-- … and the converter's circles, whose centre and radius are mapped with ANOTHER association
+    (`c*outSize/size − (outSize/2 + off)`, `r*outSize/size`; `circle_calls` below): the radius is within
+    `(2u + u²)·|r·outSize/size| + 2^21·2^-150` of `r·outSize/size`, a centre coordinate within
+    `5u·(|c·outSize/size| + |outSize/2| + |off|) + 2^22·2^-150` of `c·outSize/size − (outSize/2 + off)`.  (The start
+    point `cx − r` is one more rounded subtraction, the arc end points `±2·r` are exact.) -/
+theorem md_circle_f32 {size outSize : F32} (h : MdOK size outSize) {x off : F32} (hx : MdOp x) (ho : MdOp off)
+    (offX offY : F32) (adj : UInt8) (needStart : Bool) (c : Md.Circle F32) :
+    (Fn (mdCircR size outSize x) ∧
+      |val (mdCircR size outSize x) - val x * val outSize / val size| ≤
+        (2 * u + u * u) * |val x * val outSize / val size| + 2097152 * Mix32.tiny) ∧
+    (Fn (mdCircF size outSize off x) ∧
+      |val (mdCircF size outSize off x) - (val x * val outSize / val size - (val outSize / 2 + val off))| ≤
+        5 * u * (|val x * val outSize / val size| + |val outSize / 2| + |val off|) + 4194304 * Mix32.tiny) ∧
+    MdG.circleCalls size offX offY outSize adj needStart c =
+      (let cx := mdCircF size outSize offX c.cx
+       let cy := mdCircF size outSize offY c.cy
+       let r := mdCircR size outSize c.r
+       [if needStart then Call.startPath adj (cx - r) cy else Call.d2 .Y (cx - r) cy,
+        .arc true r r (F32.ofInt 0) false true (F32.ofInt 2 * r) (F32.ofInt 0),
+        .arc true r r (F32.ofInt 0) false true (F32.ofInt (-2) * r) (F32.ofInt 0)]) :=
+  ⟨Xf32.md_circle_r_f32 h hx, Xf32.md_circle_f32 h hx ho, rfl⟩
+
+end f32
 
 /-! ## opacity registers and circles (every number type) -/
 section
@@ -448,10 +623,16 @@ end mdconcrete
     - a space before the first `M`: `" M1 2z"` makes ClosePathAbsMoveTo(1,2) and NO StartPath;
     - commas are not separators (`Fscanf` fails, the error is ignored and a stale operand used; model: `malformed`);
     - no arcs (`A`/`a`: "unknown opcode").
-* Rounding: `concat`, `normalize` are proved at `ℚ` only; at float32 `Concat` of a single transform is
-  that transform, and of several is the rounded product (not associative).  The parsing theorems hold for
-  every number type, operands being `Arith.ofDecimalVia64` (generator) / `Arith.ofDecimal` (converter) of the
-  numeral — at float32 the correctly rounded value (via float64 for the generator).
+* Rounding: `normalize` (generator and converter), `Concat` of one and of two transforms, and the arc's
+  `rot/360` ARE bounded at float32 (section "transforms at float32"), for scale-and-translate transforms and
+  operands in the stated ranges (`2^40`; converter `2^20`).  Not covered: `Concat` of three or more general
+  transforms (iterate the one-step bound `Xf32.compF_err`; the float product is not
+  associative), non-finite operands, magnitudes above the ranges.  The bounds are relative to the SUM of the
+  magnitudes of the summands (`|s·x| + |t|`), not to the result: an absolute coordinate that the translation
+  brings close to zero keeps the absolute accuracy of `s·x` and `t`.  For the converter's circles the two maps
+  are bounded (`md_circle_f32`) but not the last subtraction `cx − r` of the start point.  The parsing theorems
+  hold for every number type, operands being `Arith.ofDecimalVia64` (generator) / `Arith.ofDecimal` (converter)
+  of the numeral — at float32 the correctly rounded value (via float64 for the generator).
 * `normalize_abs_rel` is stated for transforms whose concatenation has zero off-diagonal entries
   (scale-and-translate), which is what the property text names; for a general matrix the generator's
   "scale" for relative operands is the diagonal of the matrix, which is not the linear part.
@@ -472,6 +653,18 @@ end Ivg.Props.C20
   Ivg.Props.C20.md_normalize,
   Ivg.Props.C20.md_normalize_hv,
   Ivg.Props.C20.md_map_eq,
+  Ivg.Props.C20.normalize_abs_f32,
+  Ivg.Props.C20.near_eq,
+  Ivg.Props.C20.near_mag,
+  Ivg.Props.C20.normalize_hv_f32,
+  Ivg.Props.C20.emit_arc_f32,
+  Ivg.Props.C20.concat_single_f32,
+  Ivg.Props.C20.concat_scale_translate_f32,
+  Ivg.Props.C20.concat_pair_f32,
+  Ivg.Props.C20.concat_pair_exact,
+  Ivg.Props.C20.md_normalize_struct,
+  Ivg.Props.C20.md_normalize_f32,
+  Ivg.Props.C20.md_circle_f32,
   Ivg.Props.C20.opacity_decision,
   Ivg.Props.C20.opacity_table,
   Ivg.Props.C20.opacity_registers,
